@@ -529,6 +529,20 @@ Proof.
   - rewrite (list_set_nat legs li _ Hli EI), (list_set_nat leg vi _ Hvi EV). rewrite Eleg at 1. rewrite <- Hpre, set_nth_mid. rewrite EL at 1. rewrite <- HA, set_nth_mid. reflexivity.
   - exact Hnin.
 Qed.
+
+(* append_to_center(lighting): the dependency test, then append to the centre *)
+Theorem gen_q_append_to_center legs l legs' : legs <> [] -> py_Q_append_to_center legs false l = FRet legs' ->
+  py_Q_check_dependency_one_leg legs l = FRet tt /\ Permutation (concat legs') (l :: concat legs) /\ hd [] legs' = hd [] legs.
+Proof.
+  intros Hne H. unfold py_Q_append_to_center in H. destruct (py_Q_check_dependency_one_leg legs l) as [[]| | | |] eqn:EC; try discriminate H.
+  split; [reflexivity|]. destruct (py_Q_get_center legs) as [c| | | |]; try discriminate H. cbv beta iota zeta in H.
+  destruct (py_Q_append legs false l c) as [L| | | |] eqn:EA; try discriminate H. injection H as <-. apply (gen_q_append_accounts legs l c L Hne EA).
+Qed.
+(* ... and the defect end to end on the source: the dependent candidate ZZZZZ is attached to the star as a sixth single leg *)
+Theorem gen_q_append_to_center_refuted :
+  py_Q_append_to_center star5 false [PZ;PZ;PZ;PZ;PZ] = FRet ([[PX;PX;PX;PX;PX]] :: [[PZ;PZ;PZ;PZ;PZ]] :: tl star5) /\
+  py_Q_append_to_center star5 false [PZ;PZ;PZ;PI;PI] = FRaised (EUser "DependentException").
+Proof. split; vm_compute; reflexivity. Qed.
 Print Assumptions gen_q_anti_commutates.
 Print Assumptions gen_q_max_connected.
 Print Assumptions gen_q_append_to_queue.
@@ -540,3 +554,5 @@ Print Assumptions gen_q_find.
 Print Assumptions gen_q_append_accounts.
 Print Assumptions gen_q_remove_accounts.
 Print Assumptions gen_q_replace_accounts.
+Print Assumptions gen_q_append_to_center.
+Print Assumptions gen_q_append_to_center_refuted.
